@@ -124,11 +124,111 @@ def stage_r(chk, tier, bindir):
                        "every observation point compares QUERY bag and COUNT per type with the property and with the as-built model")
 
 
+def stage_t(chk, tier, bindir):
+    """Implementation -> spec: hook traces of random multi-lifetime histories validated by TLC
+    against the step rules of spec/StorageTrace.tla."""
+    import shutil
+    rnd = random.Random(core.seed() + 77)
+    runs = 6 if tier == "quick" else 40
+    stats = Counter()
+    for ri in range(runs):
+        root = core.WORK / "c01" / f"trace{ri}"
+        if root.exists():
+            shutil.rmtree(root)
+        root.mkdir(parents=True)
+        cap = rnd.choice([2, 3, 4])
+        fill, epz = (cap, 1) if cap % 2 else (cap // 2, 2)
+        cfg = {"root": str(root / "db"), "fill_factor": fill, "event_per_zone": epz, "shards": 1, "k": rnd.choice([2, 3])}
+        trace = root / "hooks.ndjson"
+        k = 0
+        lifetimes = rnd.choice([2, 3, 4])
+        for li in range(lifetimes):
+            steps = []
+            if li == 0:
+                for t in TYPES:
+                    steps.append({"op": "cmd", "text": f'DEFINE {t} FIELDS {{ k: "int", ty: "string" }}'})
+            # every other run starts with a short first lifetime that leaves a partially filled WAL log
+            short_first = (li == 0 and ri % 2 == 0)
+            for _ in range(rnd.randint(1, cap - 1) if short_first else rnd.randint(6, 20)):
+                x = 0.0 if short_first else rnd.random()
+                if x < 0.7:
+                    k += 1
+                    t = rnd.choice(TYPES)
+                    steps.append({"op": "cmd", "text": f'STORE {t} FOR {rnd.choice(CTXS)} PAYLOAD {{"k": {k}, "ty": "{t}"}}'})
+                    steps.append({"op": "flush_wait"})
+                    steps.append({"op": "wal_drain"})
+                elif x < 0.85:
+                    steps.append({"op": "cmd", "text": "FLUSH"})
+                else:
+                    steps.append({"op": "compact", "shard": 0, "reclaim_wait_ms": 1000})
+            steps.append({"op": "wal_drain"})
+            steps.append({"op": "crash"} if (short_first or rnd.random() < 0.6) else {"op": "shutdown"})
+            rc, obs, err = core.run_vdrive(bindir, {"config": cfg, "out": str(root / f"o{li}.ndjson"), "steps": steps},
+                                           env={"VERIF_TRACE": str(trace)}, timeout=180)
+            if rc not in (0, -6, 134):
+                chk.violation(f"stage T: engine process of trace run {ri} ended with {rc}: {err[-200:]}", {"run": ri})
+                break
+        # normalise the trace for TLC: one shard, labels as integers
+        recs = []
+        for line in open(trace):
+            try:
+                r = json.loads(line)
+            except json.JSONDecodeError:
+                continue
+            if "live" in r:
+                r["live"] = [int(x) for x in r["live"]]
+            if "inputs" in r:
+                r["inputs"] = [int(x) for x in r["inputs"]]
+            for f in ("drained",):
+                if f in r:
+                    r[f] = [int(x) for x in r[f]]
+            r["seq"] = len(recs) + 1          # the hook's own sequence number restarts in every lifetime
+            recs.append(r)
+        norm = root / "hooks.norm.ndjson"
+        with open(norm, "w") as f:
+            for r in recs:
+                f.write(json.dumps(r) + "\n")
+        t = core.tlc("StorageTrace", "StorageTrace.cfg", workers=1, env={"TRACE": str(norm)}, timeout=600, xss=True, deque=True, mem="4g")
+        if t.error or t.violated or t.rc != 0:
+            core.log(t.out[-3000:])
+            raise core.ToolError(f"StorageTrace failed on run {ri}: {t.error or t.violated} rc={t.rc}")
+        bad = None
+        for line in t.out.splitlines():
+            line = line.strip()
+            if line.startswith('<<"BAD", "') and line.endswith('">>'):
+                bad = json.loads(line[len('<<"BAD", "'):-3].replace('\\"', '"'))
+        if bad is None:
+            core.log(t.out[-2000:])
+            raise core.ToolError("StorageTrace did not consume the trace")
+        stats["trace_runs"] += 1
+        stats["trace_events"] += len(recs)
+        by_seq = {r["seq"]: r for r in recs}
+        first_prune = min([q for (q, c2) in bad if c2 in ("R-prune", "R-prune-open")], default=None)
+        for (seq, cls) in sorted(bad):
+            ev = by_seq.get(seq, {})
+            desc = f"stage T (TLC StorageTrace) rule {cls} violated at hook event {ev.get('ev')} {json.dumps({k2: v for k2, v in ev.items() if k2 not in ('eids',)})[:200]} of trace run {ri}"
+            if cls in ("R-prune", "R-prune-open"):
+                if chk.classify(["C01-prune-by-segment-id"], desc, {"trace": str(norm), "seq": seq}) == "known":
+                    stats["known_prune"] += 1
+            elif cls == "R-replay" and first_prune is not None and first_prune < seq:
+                # start-up replays the WAL files on disk; after an earlier R-prune violation the model's
+                # picture of the files can lag (writes into an unlinked log): attributed to the same finding
+                if chk.classify(["C01-prune-by-segment-id"], desc, {"trace": str(norm), "seq": seq}) == "known":
+                    stats["known_replay_after_prune"] += 1
+            else:
+                chk.violation(desc, {"trace": str(norm), "seq": seq})
+        shutil.rmtree(root / "db", ignore_errors=True)
+    chk.cov["trace_validation"] = dict(stats)
+    return stats
+
+
 def run(tier):
     chk = core.Check(PROP, "model_checking", tier)
     bindir = core.build_harness(("vdrive",))
     stage_m(chk, tier)
     stage_r(chk, tier, bindir)
+    st = stage_t(chk, tier, bindir)
+    chk.cov["traces_validated_against_impl"] += st["trace_runs"]
     chk.assumptions += [
         "process crash = abort(); OS/power loss, fsync and torn sector writes are out of scope",
         "applied = WAL drained (wal_flush_each_write = true); the window between memtable insert and WAL write is not judged",
